@@ -16,6 +16,7 @@ CASES = {
     # name: (type, kind, n)
     'pickle-small': (A.Saver, 'small', 3),
     'pickle-multi': (A.Saver, 'multi', 200),
+    'pickle-blob': (A.Saver, 'blob', 300),
     'json-small': (A.JSaver, 'small', 3),
     'json-multi': (A.JSaver, 'multi', 40),
     'pickle-unpicklable0': (A.Saver, 'unpicklable0', 0),
